@@ -161,7 +161,8 @@ def gen_project(rng, idx, W, min_occ):
                         fb.add(("%s/* note %d */" if (not py and rng.random() < 0.4) else "%s" + ("#" if py else "//") + " note %d") % (ind2, fresh()))
                     text = ind2 + stmt(fb.lang, sid)
                     if noisy and rng.random() < 0.3:
-                        text += "  %s trailing %d" % ("#" if py else "//", fresh())
+                        # (a trailing comment in any of the language's spellings: line, block, doc block)
+                        text += ("  # trailing %d" if py else rng.choice(["  // trailing %d", "  /* trailing %d */", "  /** trailing %d */"])) % fresh()
                     ln = fb.add(text)
                     first = first or ln
                 last = len(fb.lines)
